@@ -96,12 +96,82 @@ def spelling_case(kind: str, tok: str) -> dict:
     return out
 
 
+def str1_impl(q: str, s: str, lit: str) -> dict:
+    """the real single-line printer / reader / lexer, for the correspondence with Text/Str.v"""
+    from explorerscript.ssb_converting.ssb_data_types import repr_string, _single_line_literal_is_exact
+    from explorerscript.ssb_converting.compiler.utils import singleline_string_literal
+    from antlr4 import InputStream, Token
+    from explorerscript.antlr.ExplorerScriptLexer import ExplorerScriptLexer
+
+    exact = _single_line_literal_is_exact(s)
+    out = {"ok": True, "exact": exact, "read_lit": singleline_string_literal(lit)}
+    if exact and "\n" not in s:
+        out["printed"] = repr_string(s, 0, prefer_single_qoute=(q == "'"))
+    errors = []
+
+    class L:
+        def syntaxError(self, *a):  # noqa
+            errors.append(1)
+    lx = ExplorerScriptLexer(InputStream(lit))
+    lx.removeErrorListeners()
+    lx.addErrorListener(L())
+    toks = []
+    while True:
+        t = lx.nextToken()
+        if t.type == Token.EOF:
+            break
+        toks.append((t.type, t.text))
+    out["lit_lexes"] = (not errors and len(toks) == 1 and toks[0][0] == ExplorerScriptLexer.STRING_LITERAL and toks[0][1] == lit)
+    return out
+
+
+def str1_cases(r: random.Random, n: int) -> list[tuple[str, str, str]]:
+    alpha = ["a", "n", " ", "\\", "'", '"', "\n", "\r", "\f", "é", "\t"]
+    out = []
+    for s in exhaustive_strings(3):
+        q = r.choice("'\"")
+        out.append((q, s, q + s + q))
+    for _ in range(n):
+        s = "".join(r.choice(alpha) for _ in range(r.randint(0, 8)))
+        q = r.choice("'\"")
+        body = "".join(r.choice(alpha) for _ in range(r.randint(0, 8)))
+        out.append((q, s, q + body + q))
+    return out
+
+
 def main() -> None:
     run = Run("C04", "proof")
     run.forbid()
+    run.require_vo(["Text/Dec.v", "Text/Str.v", "Text/StrProofs.v"])
     run.props("Props/C04.v")
     q = run.tier == "quick"
     r = random.Random(f"C04-{run.seed}")
+    # correspondence of the single-line string model (Text/Str.v) with the real printer, reader and lexer
+    from core import A, run_driver
+    sc = str1_cases(r, 600 if q else 8000)
+    simpl = run_impl([("checks.c04:str1_impl", qq, s, lit) for qq, s, lit in sc])
+    smod = run_driver([[A("str1"), ord(qq), [ord(c) for c in s], [ord(c) for c in lit]] for qq, s, lit in sc])
+    first = None
+    for (qq, s, lit), im, mo in zip(sc, simpl, smod):
+        run.case(["str1", qq, s, lit], nontrivial=len(s) > 0)
+        if not im.get("ok") or mo.get("r") != "ok":
+            diff = "failed"
+        else:
+            t = lambda cps: "".join(chr(c) for c in cps)  # noqa: E731
+            diff = None
+            if im["exact"] != mo["exact"]:
+                diff = "single_exact vs _single_line_literal_is_exact"
+            elif "printed" in im and im["printed"] != t(mo["printed"]):
+                diff = "print_single vs repr_string"
+            elif im["read_lit"] != t(mo["read_lit"]):
+                diff = "read_single vs singleline_string_literal"
+            elif im["lit_lexes"] != mo["lit_lexes"]:
+                diff = "lex_body vs the STRING_LITERAL rule of the real lexer"
+        run.count("K-str1:" + ("ok" if diff is None else "DIFF"))
+        if diff and first is None:
+            first = (diff, {"quote": qq, "string": s, "literal": lit, "impl": im, "model": mo})
+    if first is not None:
+        run.correspondence_broken("K-str1 (Text/Str.v)", first[0], first[1])
     strings = structured_strings(r, 400 if q else 5000) + exhaustive_strings(3 if q else 5)
     tasks, meta = [], []
     for s in strings:
